@@ -497,6 +497,9 @@ class CustomSD(BaseCorrelations):
                         / (1 - np.exp(-w / self.temperature))
                 else:
                     inte = self._spectral_density(w) * np.exp(-1j * w * tau)
+                    arg = -(w / self.temperature - 1j * tau * w)
+                    if np.real(arg) < 1.0: # not negligible for imaginary tau
+                        inte += self._spectral_density(w) * np.exp(arg)
                 return inte
 
         integral = _complex_integral(integrand,
@@ -572,6 +575,10 @@ class CustomSD(BaseCorrelations):
                 else:
                     inte = self._spectral_density(w) / w ** 2 \
                         * (np.exp(-1j * w * tau) - 1 + 1j * w * tau)
+                    arg = -(w / self.temperature - 1j * tau * w)
+                    if np.real(arg) < 1.0: # not negligible for imaginary tau
+                        inte += self._spectral_density(w) / w ** 2 \
+                            * np.exp(arg)
                 return inte
 
         integral = _complex_integral(integrand,
